@@ -12,6 +12,9 @@ package bitswap
 // L3: an accepted body carries the requested identifier and a container equal to the committed data; a rejected body
 //     changes nothing; what Blockstore.Get serves for every identifier of a stored square is accepted and yields the data;
 //     concurrent fetches of one CID never panic and end with verified data or an error.
+//
+// zz_verif_c10_conc_test.go: concurrent fetches of one CID as schedules of explicit steps forced on the real Fetch (group conc);
+// zz_verif_c10_serve_test.go: the serving side over every representation a node serves from (group serve).
 
 import (
 	"bytes"
@@ -21,7 +24,6 @@ import (
 	"fmt"
 	"sync"
 	"testing"
-	"time"
 
 	"github.com/ipfs/boxo/exchange"
 	blocks "github.com/ipfs/go-block-format"
@@ -140,7 +142,10 @@ func (g c10Getter) GetByHeight(_ context.Context, h uint64) (eds.AccessorStreame
 	}
 	return sq.acc, nil
 }
-func (g c10Getter) HasByHeight(_ context.Context, h uint64) (bool, error) { _, ok := g[h]; return ok, nil }
+func (g c10Getter) HasByHeight(_ context.Context, h uint64) (bool, error) {
+	_, ok := g[h]
+	return ok, nil
+}
 
 var errC10NotFound = fmt.Errorf("c10: %w", store.ErrNotFound)
 
@@ -1007,8 +1012,8 @@ func (e *c10Exchange) GetBlock(context.Context, cid.Cid) (blocks.Block, error) {
 	return nil, errors.New("unused")
 }
 func (e *c10Exchange) NotifyNewBlocks(context.Context, ...blocks.Block) error { return nil }
-func (e *c10Exchange) Close() error                                            { return nil }
-func (e *c10Exchange) NewSession(context.Context) exchange.Fetcher             { return e }
+func (e *c10Exchange) Close() error                                           { return nil }
+func (e *c10Exchange) NewSession(context.Context) exchange.Fetcher            { return e }
 func (e *c10Exchange) GetBlocks(ctx context.Context, cids []cid.Cid) (<-chan blocks.Block, error) {
 	s := &c10Session{wanted: map[cid.Cid]bool{}, out: make(chan blocks.Block, len(cids)+1), ctx: ctx}
 	for _, c := range cids {
@@ -1040,6 +1045,13 @@ func (e *c10Exchange) check(pref cid.Prefix, data []byte) (c cid.Cid, ok bool, p
 	return
 }
 
+// delivered: the i-th session has been handed everything it asked for (its channel is closed without cancellation)
+func (e *c10Exchange) delivered(i int) bool {
+	e.mu.Lock()
+	defer e.mu.Unlock()
+	return i < len(e.sessions) && e.sessions[i].closed && len(e.sessions[i].wanted) == 0
+}
+
 func (e *c10Exchange) publish(c cid.Cid, data []byte) {
 	blk, err := blocks.NewBlockWithCid(data, c)
 	if err != nil {
@@ -1061,9 +1073,10 @@ func (e *c10Exchange) publish(c cid.Cid, data []byte) {
 }
 
 type c10FetchRes struct {
-	err   error
-	panic string
-	done  bool
+	err    error
+	panic  string
+	done   bool
+	doneCh chan struct{}
 }
 
 func (h *c10H) fetchScenario(name string, sqi int, id c10ID, differentRoot bool, garbageRace bool) {
@@ -1092,9 +1105,10 @@ func (h *c10H) fetchScenario(name string, sqi int, id c10ID, differentRoot bool,
 		defer wg.Done()
 		res.panic = zv.Recover(func() { res.err = Fetch(ctx, ex, roots, blks) })
 		res.done = true
+		close(res.doneCh)
 	}
 	var wg sync.WaitGroup
-	var resA, resB c10FetchRes
+	resA, resB := c10FetchRes{doneCh: make(chan struct{})}, c10FetchRes{doneCh: make(chan struct{})}
 	wg.Add(1)
 	go run(ctxA, sq.roots, []Block{blkA, padBlk}, &resA, &wg)
 	<-ex.started // A has registered its CIDs and subscribed
@@ -1139,19 +1153,14 @@ func (h *c10H) fetchScenario(name string, sqi int, id c10ID, differentRoot bool,
 		step(honest, true)
 	}
 	// let B finish (it has everything it asked for, or failed); then release A
-	waitDone := func(res *c10FetchRes, d time.Duration) bool {
-		dl := time.Now().Add(d)
-		for time.Now().Before(dl) {
-			if res.done {
-				return true
-			}
-			time.Sleep(time.Millisecond)
-		}
-		return res.done
-	}
-	if !waitDone(&resB, 10*time.Second) {
+	// B returns by itself exactly when the exchange has handed it the block (its channel is then closed) or its own check
+	// failed; otherwise it waits for its context.  Which of the two is the case is known from the exchange, not from a clock.
+	waitDone := func(res *c10FetchRes) { <-res.doneCh }
+	if ex.delivered(1) {
+		waitDone(&resB)
+	} else {
 		cancelB()
-		waitDone(&resB, 10*time.Second)
+		waitDone(&resB)
 		if resB.panic == "" && c10Container(blkB) == nil && !differentRoot && !garbageRace {
 			h.r.Violation("dup-starved:"+name, "the duplicate fetch did not receive the block its CID's honest body was published for", replay)
 		}
@@ -1218,7 +1227,7 @@ func TestVerifC10(t *testing.T) {
 	h.gserve = r.Group("serve", c10ServeHeader, "scase", "serve_mismatches")
 
 	var rp struct {
-		Hasher *c10HCase `json:"hasher"`
+		Hasher *c10HCase     `json:"hasher"`
 		Sched  *c10Sched     `json:"sched"`
 		Serve  *c10ServeCase `json:"serve"`
 	}
